@@ -119,7 +119,8 @@ def set_mode(mod, case):
         MODE.update(vkind="int", touch=False, late_default=False, reassign=False)
         return
     h = int(hashlib.sha1(json.dumps(case, sort_keys=True).encode()).hexdigest()[:8], 16)
-    MODE["vkind"] = ["int", "int", "float", "sub"][h % 4]
+    kinds = getattr(mod, "VKINDS", ["int", "int", "float", "sub"])
+    MODE["vkind"] = kinds[h % len(kinds)]
     MODE["touch"] = (h // 4) % 2 == 1
     MODE["late_default"] = (h // 8) % 2 == 1
     MODE["reassign"] = (h // 16) % 4 == 3 and getattr(mod, "REASSIGN_MODE", True)
@@ -129,12 +130,22 @@ def dress(v):
     if isinstance(v, bool) or not isinstance(v, int):
         return v
     k = MODE["vkind"]
+    if k == "tiny":
+        # opt-in (VKINDS): v * 2^-40, exact in binary floating point - a non-default value within 1e-9 of
+        # the default.  Only for properties whose observations are linear in the payloads (no products).
+        return v * TINY
     return float(v) if k == "float" else SubInt(v) if k == "sub" else v
+
+
+TINY = 2.0 ** -40
 
 
 def undress(p):
     if isinstance(p, bool):
         return p
+    if MODE["vkind"] == "tiny" and isinstance(p, float) and p == p and abs(p) != float("inf"):
+        q = p / TINY
+        return int(q) if q == int(q) else p
     if isinstance(p, float) and p == p and abs(p) != float("inf") and p == int(p):
         return int(p)
     if isinstance(p, int):
